@@ -4,7 +4,7 @@ import base64
 from hypothesis import strategies as st
 
 from harness import build, gen, simnet, wire, httpref
-from harness.runner import Prop, Enumeration, held, failed, after_every_prelude, with_noise, with_companion
+from harness.runner import Prop, Enumeration, held, failed, after_every_prelude, with_noise, with_companion, with_debug_log
 from props.c01 import effective_seg
 
 HOSTS = ["example.test", "EXAMPLE.Test", "a.b-c.example", "127.0.0.1", "localhost", "xn--bcher-kva.example",
@@ -285,7 +285,7 @@ class C10(Prop):
                 Enumeration("malformed_status_lines", odd_status_lines, exhaustive=True),
                 Enumeration("accept_x_upgrade_x_status", accepts, exhaustive=True),
                 Enumeration("critical_header_names_that_only_look_right", odd_names, exhaustive=True),
-                Enumeration("header_spellings", spellings, exhaustive=True), after_every_prelude(battery),
+                Enumeration("header_spellings", spellings, exhaustive=True), after_every_prelude(battery), with_debug_log(battery),
                 with_companion(battery)]
 
     def run_case(self, case):
